@@ -347,6 +347,27 @@ func LiveMPD(a *asset, mpdName string, cfg *ResponseConfig, drmCfg *drm.DrmConfi
 }
 
 // lastPeriodStartTime returns the absolute startTime of the last Period.
+// firstAndLastSegmentStart returns the start times of the first and the last segment of a timeline
+// whose first S element carries t.
+func firstAndLastSegmentStart(ss []*m.S) (first, last uint64, ok bool) {
+	if len(ss) == 0 || ss[0].T == nil {
+		return 0, 0, false
+	}
+	t := *ss[0].T
+	first, last = t, t
+	for _, s := range ss {
+		if s.T != nil {
+			t = *s.T
+		}
+		if s.R < 0 {
+			return first, last, true
+		}
+		last = t + uint64(s.R)*s.D
+		t += uint64(s.R+1) * s.D
+	}
+	return first, last, true
+}
+
 func lastPeriodStartTime(mpd *m.MPD) (m.DateTime, error) {
 	lastPeriod := mpd.Periods[len(mpd.Periods)-1]
 	lastRelStartS := time.Duration(*lastPeriod.Start).Seconds()
@@ -400,6 +421,26 @@ func splitPeriod(mpd *m.MPD, a *asset, cfg *ResponseConfig, wTimes wrapTimes) er
 	startPeriodNr := (wTimes.startTimeMS - astMS) / (periodDur * 1000)
 	endPeriodNr := (wTimes.nowMS - astMS) / (periodDur * 1000)
 	inPeriod := mpd.Periods[0]
+	if cfg.liveMPDType() != segmentNumber {
+		// The timeline may start with a segment that begins before the time-shift window and (with an
+		// availabilityTimeOffset) end with one that begins after now: every listed segment needs its period.
+		for _, as := range inPeriod.AdaptationSets {
+			if as.SegmentTemplate == nil || as.SegmentTemplate.SegmentTimeline == nil {
+				continue
+			}
+			first, last, ok := firstAndLastSegmentStart(as.SegmentTemplate.SegmentTimeline.S)
+			if !ok {
+				continue
+			}
+			periodTicks := uint64(periodDur) * uint64(as.SegmentTemplate.GetTimescale())
+			if pNr := int(first / periodTicks); pNr < startPeriodNr {
+				startPeriodNr = pNr
+			}
+			if pNr := int(last / periodTicks); pNr > endPeriodNr {
+				endPeriodNr = pNr
+			}
+		}
+	}
 	nrPeriods := endPeriodNr - startPeriodNr + 1
 	periods := make([]*m.Period, 0, nrPeriods)
 	for pNr := startPeriodNr; pNr <= endPeriodNr; pNr++ {
